@@ -5,7 +5,7 @@ CHECK = {
     "level": "exploration",
     "engine": "manager-scenario-engine",
     "technique": "stateful property testing (rapid state machine) of the service with a harness-owned schedule of background job completions; invariant evaluated inside the service loop after every step",
-    "rule": ('scenario = generated UDP traffic (3-8 flows, up to 26 datagrams with payloads from a small pool, cut into 2-5 capture files so flows continue across captures) plus a rapid state-machine history of: importing the next capture(s), tag add / query edit / delete / colour, mark add / remove, converter attach / detach / reset, opening / using / releasing views, and *delivering the completion of a parked background job* (import, tagging, merge, convert) chosen by the generator - every job parks at a gate right before it posts its completion to the service loop, so the order of completions relative to API calls and to each other is generated; '
+    "rule": ('scenario = generated UDP traffic (3-8 flows, up to 26 datagrams with payloads from a small pool, cut into 2-5 capture files so flows continue across captures) plus a rapid state-machine history of: importing the next capture(s), tag add / query edit / delete / colour, mark add / remove, converter attach / detach / reset, opening / using / releasing views, and *delivering the completion of a parked background job* (import, tagging, merge, convert) chosen by the generator - every job parks at a gate right before it posts its completion to the service loop, so the order of completions relative to API calls and to each other is generated. Scenario variants added later: one scenario in sixteen has 63/64/65/127/128 single-datagram flows (bitmap word boundaries); one import in eight also queues an upload that is no capture (empty, garbage, cut header); streams whose payload contains "x5" make the harness converter answer with a stray line in front of its output (the service gives up on them: no cached output may exist); tag/d, which no other tag refers to, may get a definition with a sub-query (ground truth by vq.EvalNFSub: some visible stream per sub-query name makes every condition true); a step can make every later merge fail.; '
              'no read through a held view ever fails; after settling with all views released the set of *.idx files in the index directory equals the set of files the service serves and the use counts add up to the number of served files. Non-trivial: a view or a parked job held files across a delivered merge that replaced them. '
              'Merge fault campaign (TestVerifC13MergeFault): 2-4 generated index files with overlapping stream ids are opened, one of them is truncated on disk at a generated offset, index.Merge is called on the run the way the merge job does; when it reports failure the directory must hold exactly the inputs (the service keeps serving them), when it succeeds exactly the returned files are new. Non-trivial: the merge failed.'),
     "level_text": 'invariant checked after every step of generated histories with generated completion orders; finds lost invalidations / reference-count and snapshot errors that need a specific interleaving; no absence claim',
